@@ -1,0 +1,14 @@
+//go:build verif
+
+package fio
+
+// VerifEvent, when set, is told about every file operation of both ReadWriter
+// implementations immediately before it is issued.
+// kind: open | write | sync | truncate | close ; n: byte count / new size.
+var VerifEvent func(kind string, path string, data []byte, n int64)
+
+func verifEvent(kind string, path string, data []byte, n int64) {
+	if VerifEvent != nil {
+		VerifEvent(kind, path, data, n)
+	}
+}
